@@ -53,7 +53,7 @@ def run(tier, seed):
         tie[k] = tie.get(k, 0) + tie2.get(k, 0) + tie3.get(k, 0)
     tie["model_sites_hit_cv"] = tie2.get("model_sites_hit", {})
     tie["model_sites_hit_semwait"] = tie3.get("model_sites_hit", {})
-    specs = [("cv_mix", {"VRT_MODE": 0}, 2000, 40000), ("cv_mix", {"VRT_MODE": 4}, 1500, 30000), ("muwait_mix", {"VRT_MODE": 0}, 2000, 40000),
+    specs = [("note_waitwin", {"VRT_AIM": 60}, 1000, 15000), ("mix_all", {}, 800, 15000), ("cv_mix", {"VRT_MODE": 0}, 2000, 40000), ("cv_mix", {"VRT_MODE": 4}, 1500, 30000), ("muwait_mix", {"VRT_MODE": 0}, 2000, 40000),
              ("muwait_mix", {"VRT_MODE": 1}, 1000, 20000), ("muwait_mix", {"VRT_MODE": 0, "VRT_FINE": 600}, 1500, 30000), ("muwait_mix", {"VRT_MODE": 5}, 1000, 20000), ("cancel_mix", {}, 3000, 60000),
              # reader-mode / generic-lock timed and cancellable cv waits racing real wake-ups (MODE 6), untimed generic waits (MODE 5),
              # expiring notes that nobody notifies explicitly
